@@ -41,6 +41,7 @@ impl Case {
             Self::Upper => field.to_ascii_uppercase(),
             Self::Pascal => field
                 .split('_')
+                .filter(|s| !s.is_empty(/* `_lead`, `dbl__us` */))
                 .map(|s| s[..1].to_ascii_uppercase() + &s[1..])
                 .collect(),
             Self::Camel => {
